@@ -23,6 +23,12 @@ struct Interpose {
   // called for every open/openat/fopen64/opendir of a path under the sim base; may return an
   // errno (>0) to fail the call or 0 to let it proceed
   std::function<int(const std::string& path, int flags)> onOpen;
+  // after a successful open of a path under base (absolute path, open flags)
+  std::function<void(const std::string& path, int flags)> onOpened;
+  // every write(2) on an fd > 2 whose path is under base or equals kmsgPath
+  std::function<void(const std::string& path, const std::string& data)> onWrite;
+  std::string kmsgPath;
+  bool clearDType{false}; // readdir reports DT_UNKNOWN (file systems without d_type)
   bool logXattr{false};
   bool active{false}; // master switch; off = plain pass-through
   std::string base;   // paths under this prefix are "ours"
@@ -31,3 +37,6 @@ struct Interpose {
 Interpose& ip();
 
 } // namespace verif
+
+// called by the setxattr interposer after a successful store (absolute path, name, value)
+extern std::function<void(const std::string&, const std::string&, const std::string&)> g_onSetXattr;
